@@ -686,10 +686,15 @@ func Fail(kind, msg string) {
 	if s == nil {
 		panic(kind + ": " + msg)
 	}
+	// s.cur must be read before finish(): the moment the execution is declared over, the
+	// tear-down loop of Run starts to re-point s.cur at the threads it wakes one by one - a
+	// finisher that was descheduled right after finish() would otherwise wait on (and steal)
+	// another thread's wake-up token, and that thread would never leave
+	t := s.cur
 	s.fail(&Failure{Kind: kind, Msg: msg})
 	s.finish()
-	<-s.cur.wake
-	s.unwind(s.cur)
+	<-t.wake
+	s.unwind(t)
 }
 
 // Finish ends the execution normally from the running thread: the harness
@@ -700,10 +705,11 @@ func Finish() {
 	if s == nil || s.aborting {
 		return
 	}
+	t := s.cur // before finish(), see Fail
 	s.aborting = true
 	s.finish()
-	<-s.cur.wake
-	s.unwind(s.cur)
+	<-t.wake
+	s.unwind(t)
 }
 
 // OnCleanup registers f to run after the execution has been torn down.
